@@ -68,7 +68,18 @@ def direction_values(encl):
         except Exception:
             raise AnalysisError("direction loop does not iterate a literal tuple")
         if isinstance(tgt, ast.Name):
-            out.append((v, {}))
+            # integer helpers computed from the direction at the top of the loop body: dn = 0 if to == 'last' else 1
+            from ..core.minieval import evaluate, CannotEvaluate
+            sub = {}
+            for st in encl.body:
+                if isinstance(st, ast.Assign) and len(st.targets) == 1 and isinstance(st.targets[0], ast.Name):
+                    try:
+                        val = evaluate(st.value, {tgt.id: v, **sub})
+                    except CannotEvaluate:
+                        continue
+                    if isinstance(val, int) and not isinstance(val, bool):
+                        sub[st.targets[0].id] = val
+            out.append((v, sub))
         else:
             names = [x.id for x in tgt.elts]
             env = dict(zip(names, v))
@@ -81,7 +92,14 @@ def affine(node, subst, inl=None):
     """expression -> Rat with integer names substituted"""
     env = {k: Rat(Poly.const(v)) for k, v in subst.items()}
     if inl is not None:
-        node = inl.expand(node)
+        # names with a known integer value for this direction are constants; everything else may be inlined
+        import copy
+
+        class K(ast.NodeTransformer):
+            def visit_Name(self, n):
+                return ast.Constant(value=subst[n.id]) if n.id in subst and isinstance(n.ctx, ast.Load) else n
+        node = inl.expand(K().visit(copy.deepcopy(node)))
+        node = K().visit(node)
     return from_ast(node, env, opaque=True)
 
 
@@ -437,10 +455,14 @@ def krylov_memo_keys(chk, prog, rule="T4"):
     for name in ("_update_A", "_update_C", "_update_AA"):
         f = prog.func("yastn.tn.mps._tdvp", name)
         reads, writes, tests = set(), set(), set()
+        envp = f.params[0]
+        memo = f"{envp}._temp['expmv_ncv']"
+        # the memo dictionary itself, or a local alias of it (`ncv_memo = env._temp['expmv_ncv']`)
+        aliases = {memo} | {nm for nm, ds in A.local_bindings(f.node).items() if any(k == "assign" and v is not None and A.text(v) == memo for st, v, k in ds)}
         for n in ast.walk(f.node):
-            if isinstance(n, ast.Subscript) and A.text(n.value) == "env._temp['expmv_ncv']":
+            if isinstance(n, ast.Subscript) and A.text(n.value) in aliases:
                 (writes if isinstance(n.ctx, ast.Store) else reads).add(A.text(n.slice))
-            if isinstance(n, ast.Compare) and isinstance(n.ops[0], ast.In) and A.text(n.comparators[0]) == "env._temp['expmv_ncv']":
+            if isinstance(n, ast.Compare) and isinstance(n.ops[0], ast.In) and A.text(n.comparators[0]) in aliases:
                 tests.add(A.text(n.left))
         chk.require(writes, f"{name}: write of env._temp['expmv_ncv'] not found")
         ok = reads == writes == tests and len(writes) == 1
